@@ -202,6 +202,19 @@ ADDENDA14 = {
  "C20": " Also (round 13): the key-order rules of C07 (sortedKeys: total order, no ties decided by map iteration) are evaluated under C20.",
 }
 
+# rounds 15-16, corpus U, second pre-pass strategy and feasible paths (DESIGN §33)
+ADDENDA16 = {
+ "C01": " Also (round 16): K2 reads string(φ[b, b[:i]]) — `if i := bytes.IndexByte(b, 0); i != -1 { b = b[:i] }; return string(b)` — as the cut at the first NUL or the whole field.",
+ "C02": " Also (corpus U): E2 treats an unexported function without loops or calls whose every return is an object allocated in it as that allocation (newDUID(typ)); `if err := d.FromBytes(rest); err != nil { return d, err }; return d, nil` is the delegated return.",
+ "C03": " Also (corpus U): a dereference guarded through a second variable (`if v != nil { u = v.f() }; if len(u) == 0 { return }; v.g()`) is discharged by the correlation of the two φs; the regexp contract D11 knows a submatch slice to be empty on a φ edge when its emptiness test lies on every path to that predecessor. Ledger entries of a reviewed function are inherited by a helper split out of it (unknown to the baseline, called only from it); the entries' machine-checked facts are evaluated where the construct now lives.",
+ "C10": " Also (round 16): K7 accepts a receive buffer allocated once before the loop when the decoder keeps nothing of its input (E3), the slice handed to ReadFrom is the whole buffer (no narrowing φ) and the buffer is otherwise only decoded from, measured and copied from; K6 lets construction steps (unexported, never a value, called only from the constructor before the receive loop starts) write Client fields; K4 judges a (response, error) pair of φs edge by edge when the wait loop's results leave it through a join. Helpers with their own returns, loops or selects are merged into their callers before analysis (pre-pass, second strategy) and the must-pass queries run over feasible paths (cfgpath.go).",
+ "C11": " Also (rounds 15-16): the try's deadline and the caller's context may share ONE case of the wait select, on a context derived with context.WithTimeout(ctx, timeout), when the case is decided by Err() of the caller's context (non-nil: that error; nil: the internal deadline error); a case that sets the results and leaves a merged loop is judged by the value it returns through the join (resultVia).",
+ "C12": " Also (round 16): the retry driver may hand back the try's result as it is (`if err != errDeadlineExceeded { return err }` covers nil); the wait-select rules (a deadline case fed by the try's timeout, created once per try, never re-armed: C11-K1/K2) are evaluated under C12.",
+ "C13": " Also: the flag contract accepts IsUnicast() = !IsBroadcast() when the sibling is the directly written test.",
+ "C14": " Also (round 16): K4 accepts a hoisted read buffer under the conditions of C10-K7; the serve-loop rules (exits, every read reaches the decoder, no handler after a decode error, a handler after every success, handler arguments) run over feasible paths and resolve φs by the edges that can reach the use, so a read/decode step split into a helper returning (msg, peer, err) is judged like the inlined loop.",
+ "C17": " Also: K1 reads the printer table from getOption or from an unexported function it calls for the decoder.",
+}
+
 NA_REASON = {}
 
 def main():
@@ -212,7 +225,7 @@ def main():
         pid = p["id"]
         if pid in CLAIMED:
             tech, text, note, ref = CLAIMED[pid]
-            text = text + ADDENDA.get(pid, "") + ADDENDA7.get(pid, "") + ADDENDA8.get(pid, "") + ADDENDA10.get(pid, "") + ADDENDA12.get(pid, "") + ADDENDA14.get(pid, "")
+            text = text + ADDENDA.get(pid, "") + ADDENDA7.get(pid, "") + ADDENDA8.get(pid, "") + ADDENDA10.get(pid, "") + ADDENDA12.get(pid, "") + ADDENDA14.get(pid, "") + ADDENDA16.get(pid, "")
             checks.append({
                 "property_id": pid,
                 "quick_cmd": f"./check.sh {pid} quick",
@@ -243,7 +256,7 @@ def main():
         }],
         "checks": checks,
         "not_applicable": na,
-        "notes": "All claims are at level 'other': each check decides named structural clauses (necessary conditions) of its property from the source, on all paths, and says which part of the behaviour it does not decide. Before analysis the working tree is normalised: calls of functions whose names are not in spec/functions.json (new helpers) are inlined with the vendored golang.org/x/tools source inliner (checker/xt, BSD licence; DESIGN §32). Silence means 'equal to the reviewed structure up to the normal forms on file'; measured limits (medium-sized refactorings, full rewrites, new codecs) are in DESIGN §29 and §32. See DESIGN.md.",
+        "notes": "All claims are at level 'other': each check decides named structural clauses (necessary conditions) of its property from the source, on all paths, and says which part of the behaviour it does not decide. Before analysis the working tree is normalised: calls of functions whose names are not in spec/functions.json (new helpers) are inlined with the vendored golang.org/x/tools source inliner (checker/xt, BSD licence; DESIGN §32); in the client and server packages helpers with their own returns, loops or selects are merged as a labelled block (checker/inlineret.go; DESIGN §33). Silence means 'equal to the reviewed structure up to the normal forms on file'; measured limits (medium-sized refactorings, full rewrites, new codecs) are in DESIGN §29, §32 and §33 (faithful twins of small commits: 19 of 40 silent). See DESIGN.md.",
     }
     out = os.path.join(ROOT, "MANIFEST.json")
     json.dump(m, open(out, "w"), indent=1)
